@@ -584,3 +584,81 @@ func (ck *Check) runTreeStandIn(prop string) {
 	ck.bounded = append(ck.bounded, d)
 	ck.assume["Tree.Insert: functional postcondition (denotation union, NodeOK) is NOT proved; bounded stand-in only (see coverage.bounded)"] = true
 }
+
+func init() {
+	extraChecks["C17"] = func(ck *Check) {
+		// functions whose bodies the safety sweep does not reach are exercised by
+		// the bounded stand-ins (no panic on any enumerated case)
+		ck.runTreeStandIn("C17")
+		ck.runAllStandIn()
+		ck.inventory()
+	}
+}
+
+func (ck *Check) runAllStandIn() {
+	src, err := os.ReadFile(filepath.Join(ck.Verif, "harness", "c19_all_test.go"))
+	if err != nil {
+		ck.engineErr = append(ck.engineErr, err.Error())
+		return
+	}
+	os.Setenv("GOVC_C19_NODES", "7")
+	out, _ := ck.runOverlayTest("cfgerrors", "zz_govc_c19_test.go", string(src), "^TestGovcC19$", 10*time.Minute)
+	var trees, cases, nontrivial, fails, maxn int
+	sample := ""
+	found := false
+	for _, ln := range strings.Split(out, "\n") {
+		if strings.HasPrefix(ln, "GOVC-C19 ") {
+			fmt.Sscanf(ln, "GOVC-C19 maxnodes=%d trees=%d cases=%d nontrivial=%d fails=%d sample=%s", &maxn, &trees, &cases, &nontrivial, &fails, &sample)
+			found = true
+		}
+	}
+	d := map[string]any{"name": "bounded/cfgerrors.All", "kind": "BOUNDED stand-in (not a proof): all join trees up to the bound x all break positions, no panic and correct leaves",
+		"function": "cfgerrors.All", "bound": map[string]any{"max_nodes": maxn}, "cases": cases, "ok": found && fails == 0}
+	if !found || fails > 0 {
+		d["output"] = firstLines(out, 30)
+	}
+	ck.bounded = append(ck.bounded, d)
+}
+
+// inventory lists, for every function of the module, how its body is covered.
+func (ck *Check) inventory() {
+	P := ck.P
+	var verified, postAssumed, trustedBody, transparent, none []string
+	for _, f := range ck.moduleFuncs() {
+		n := P.FnName[f]
+		if strings.HasSuffix(n, ".init") || strings.Contains(n, "init#") {
+			continue
+		}
+		c := P.Specs.Contracts[n]
+		switch {
+		case c == nil:
+			none = append(none, n)
+		case c.Transparent:
+			transparent = append(transparent, n)
+		case c.Trusted:
+			trustedBody = append(trustedBody, n+": "+c.TrustWhy)
+		case c.TrustedPost:
+			postAssumed = append(postAssumed, n)
+		case c.ByExec:
+			verified = append(verified, n+" (exhaustive execution)")
+		default:
+			verified = append(verified, n)
+		}
+	}
+	if ck.extraCov == nil {
+		ck.extraCov = map[string]any{}
+	}
+	ck.extraCov["inventory"] = map[string]any{
+		"bodies_under_the_safety_sweep":                    verified,
+		"bodies_swept_with_assumed_postconditions":         postAssumed,
+		"executed_in_place_inside_their_callers":           transparent,
+		"bodies_NOT_swept_(trusted_contract,_bounded_stand-in_only)": trustedBody,
+		"no_contract_(not_swept)":                          none,
+	}
+	for _, n := range none {
+		ck.assume["not under the safety sweep: "+n] = true
+	}
+	for _, n := range trustedBody {
+		ck.assume["body not under the safety sweep: "+n] = true
+	}
+}
